@@ -699,6 +699,10 @@ func c25Case(t *testing.T, rng *rand.Rand) (res c25Result) {
 						k := typ + "|" + from + "|" + pl
 						if typ == "ack" {
 							k = typ + "|" + from + "|"
+							if pl != "" {
+								// an acknowledgement says who acknowledged, nothing else: no node sent this record
+								viol("ack-with-payload/"+cls, "query %s seq %d: acknowledgement record of %q carries the payload %q (an acknowledgement has none; sent in time: %v)", r.QName, s, from, pl, c25Budget(sh, r))
+							}
 						}
 						if budget[k] > 0 {
 							budget[k]--
